@@ -35,6 +35,7 @@ class CFG:
         self.entry = self._new("entry")
         self.exit = self._new("exit")
         self.raise_exit = self._new("raise")
+        self.branches: dict[int, tuple] = {}  # id(If/While) -> (then, else)
         self.of_stmt: dict[int, Node] = {}  # id(ast stmt) -> header node
         self.parent: dict[int, ast.AST] = {}
         self._index_parents(fnode)
@@ -84,8 +85,13 @@ class CFG:
         if isinstance(st, ast.If):
             t = self._stmt_node("test", st, preds)
             self._may_raise_edges(t.id, ctx)
-            a = self._seq(st.body, {t.id}, ctx)
-            b = self._seq(st.orelse, {t.id}, ctx) if st.orelse else {t.id}
+            bt = self._new("then", st)
+            bf = self._new("else", st)
+            self._edge(t.id, bt.id)
+            self._edge(t.id, bf.id)
+            self.branches[id(st)] = (bt.id, bf.id)
+            a = self._seq(st.body, {bt.id}, ctx)
+            b = self._seq(st.orelse, {bf.id}, ctx) if st.orelse else {bf.id}
             return a | b
         if isinstance(st, (ast.For, ast.AsyncFor)):
             h = self._stmt_node("iter", st, preds)
@@ -102,7 +108,10 @@ class CFG:
             h = self._stmt_node("test", st, preds)
             self._may_raise_edges(h.id, ctx)
             lctx = ctx.loop(h.id)
-            body_out = self._seq(st.body, {h.id}, lctx)
+            bt = self._new("then", st)
+            self._edge(h.id, bt.id)
+            self.branches[id(st)] = (bt.id, None)
+            body_out = self._seq(st.body, {bt.id}, lctx)
             for n in body_out:
                 self._edge(n, h.id)
             for n in lctx.continues:
@@ -293,6 +302,37 @@ class CFG:
         return self.every_path_passes(self.entry.id, b, {a}) and \
             b in self.reachable_from(self.entry.id)
 
+    def necessary_conditions(self, node):
+        """[(test expr, outcome)] that hold on *every* path from the entry to
+        ``node`` (semantic guards: early return / continue / raise styles and
+        nested ifs are all covered)."""
+        nid = self.node_of(node).id
+        out = []
+        reach = self.reachable_from(self.entry.id)
+        if nid not in reach:
+            return out
+        for st in ast.walk(self.fnode):
+            br = self.branches.get(id(st))
+            if br is None:
+                continue
+            bt, bf = br
+            for b, outcome in ((bt, True), (bf, False)):
+                if b is None or b == nid:
+                    continue
+                # conditions decided *before* the node in the same pass of
+                # the enclosing loop body: drop the branch node and see
+                # whether the node can still be reached
+                if nid not in self.reachable_from(self.entry.id, avoid={b}):
+                    out.append((st.test, outcome))
+        return out
+
+    def conditions(self, node):
+        """Canonical strings of the necessary conditions of ``node``."""
+        res = []
+        for test, outcome in self.necessary_conditions(node):
+            res.extend(cond_strings(test, outcome))
+        return sorted(set(res))
+
     def describe_path(self, path):
         out = []
         for i in path:
@@ -390,3 +430,47 @@ class _Ctx:
         c = _Ctx(raise_targets, return_target, in_try,
                  breaks=self.breaks, continues=self.continues)
         return c
+
+
+_NEG = {ast.Lt: ast.GtE, ast.LtE: ast.Gt, ast.Gt: ast.LtE, ast.GtE: ast.Lt,
+        ast.Eq: ast.NotEq, ast.NotEq: ast.Eq, ast.In: ast.NotIn,
+        ast.NotIn: ast.In, ast.Is: ast.IsNot, ast.IsNot: ast.Is}
+_SWAP = {ast.Gt: ast.Lt, ast.GtE: ast.LtE}
+_SYM = {ast.Lt: "<", ast.LtE: "<=", ast.Eq: "==", ast.NotEq: "!=",
+        ast.In: "in", ast.NotIn: "not in", ast.Is: "is",
+        ast.IsNot: "is not", ast.Gt: ">", ast.GtE: ">="}
+
+
+def cond_strings(test, outcome=True):
+    """Canonical condition strings implied by ``test`` having ``outcome``:
+    negations pushed inwards, > / >= rewritten as < / <=, operands of
+    symmetric comparisons ordered, conjunctions split."""
+    while isinstance(test, ast.UnaryOp) and isinstance(test.op, ast.Not):
+        test = test.operand
+        outcome = not outcome
+    if isinstance(test, ast.BoolOp):
+        conj = isinstance(test.op, ast.And)
+        if conj == outcome:
+            # (a and b) true  /  (a or b) false: every part has ``outcome``
+            out = []
+            for v in test.values:
+                out.extend(cond_strings(v, outcome))
+            return out
+        parts = sorted(s for v in test.values
+                       for s in ["(" + " & ".join(cond_strings(v, outcome))
+                                 + ")"])
+        return ["any(" + ", ".join(parts) + ")"]
+    if isinstance(test, ast.Compare) and len(test.ops) == 1:
+        op = type(test.ops[0])
+        left, right = ast.unparse(test.left), ast.unparse(
+            test.comparators[0])
+        if not outcome:
+            op = _NEG[op]
+        if op in _SWAP:
+            op = _SWAP[op]
+            left, right = right, left
+        if op in (ast.Eq, ast.NotEq) and right < left:
+            left, right = right, left
+        return [f"{left} {_SYM[op]} {right}"]
+    txt = ast.unparse(test)
+    return [txt if outcome else f"not {txt}"]
